@@ -15,6 +15,7 @@ from .frontend import AnalysisBroken
 from .ir import base_name
 
 U = 'U'
+ACCESS_LOG = set()     # (function, file:line) of concrete, bounds-checked accesses executed by any harness in this run
 
 
 class Unmodelled(AnalysisBroken):
@@ -327,6 +328,7 @@ class Interp:
         size = len(st.mem.objs[obj])
         ok = 0 <= off and off + n <= size
         self.accesses.append((inst.fn.name, inst.loc, obj, off, n, kind, ok))
+        if ok: ACCESS_LOG.add((base_name(inst.fn.name), inst.loc))
         if not ok:
             st.events.append(('out-of-bounds', inst.loc, obj, off, n, size))
             raise Unmodelled('out-of-bounds %s of %d bytes at offset %d of %s (size %d) at %s' % (kind, n, off, obj, size, inst.loc))
